@@ -326,8 +326,8 @@ def classify(s: sg.Schema, rr: Dict[str, Any]) -> Optional[str]:
     return None
 
 
-def run_json(ck: Check, prop_file: str, n_quick=(40, 4), n_thorough=(600, 8), opts_quick=("-O1",),
-             opts_thorough=("-O0", "-O2", "-O3")) -> None:
+def run_json(ck: Check, prop_file: str, n_quick=(40, 4), n_thorough=(600, 8), tc_quick=(("gcc", "-O1"),),
+             tc_thorough=(("gcc", "-O0"), ("gcc", "-O2"), ("gcc", "-O3"), ("clang", "-O2"))) -> None:
     ck.assumptions.extend(ASSUME)
     import time as _time
     t_start = _time.time()
@@ -383,30 +383,33 @@ def run_json(ck: Check, prop_file: str, n_quick=(40, 4), n_thorough=(600, 8), op
     if not ck.replay_file:
         cases.extend(gen_cases(ck, ns, nv))
 
-    opts = list(opts_quick if ck.quick else opts_thorough)
-    # lib/c/bitproto.c of the tree under test, compiled once per optimisation level
+    import shutil as _sh
+    chains = [tc for tc in (tc_quick if ck.quick else tc_thorough) if _sh.which(tc[0])]
+    # lib/c/bitproto.c of the tree under test, compiled once per toolchain
     rt_obj = {}
-    for o in opts:
-        obj = os.path.join(ck.dir, f"bitproto{o}.o")
-        rc, out, err = vrun(["gcc", o, "-std=c99", "-fPIC", "-w", "-c", "-I", os.path.join(REPO, "lib/c"),
+    for cc, o in chains:
+        obj = os.path.join(ck.dir, f"bitproto_{cc}{o}.o")
+        rc, out, err = vrun([cc, o, "-std=c99", "-fPIC", "-w", "-c", "-I", os.path.join(REPO, "lib/c"),
                              os.path.join(REPO, "lib/c/bitproto.c"), "-o", obj], timeout=300)
         if rc != 0:
-            ck.violation("lib/c/bitproto.c does not compile: " + err[-300:],
+            ck.violation(f"lib/c/bitproto.c does not compile with {cc} {o}: " + err[-300:],
                          {"error": err[-2000:], "obligation": "tie T2 (C runtime could not be built)"},
                          found_input=False)
             return
-        rt_obj[o] = obj
+        rt_obj[(cc, o)] = obj
     jobs = []
     for i, (s, vals, origin) in enumerate(cases):
-        opt = opts[i % len(opts)]
-        jobs.append(pyside.make_job(ck, i, s, vals, opt=opt, rt_obj=rt_obj[opt]))
-    if not ck.quick:
-        # the fixed streams once more at every other optimisation level
-        for o in opts[1:]:
+        cc, o = chains[i % len(chains)]
+        jobs.append(pyside.make_job(ck, i, s, vals, cc=cc, opt=o, rt_obj=rt_obj[(cc, o)]))
+    if not ck.quick and not ck.replay_file:
+        # the fixed streams once more with every other toolchain
+        for cc, o in chains[1:]:
             for i in range(n_corpus, n_fixed):
                 s, vals, origin = cases[i]
-                cases.append((s, vals, origin + "@" + o))
-                jobs.append(pyside.make_job(ck, len(cases) - 1, s, vals, opt=o, rt_obj=rt_obj[o]))
+                if jobs[i]["cc"] == cc and jobs[i]["opt"] == o:
+                    continue
+                cases.append((s, vals, f"{origin}@{cc}{o}"))
+                jobs.append(pyside.make_job(ck, len(cases) - 1, s, vals, cc=cc, opt=o, rt_obj=rt_obj[(cc, o)]))
     t1 = _time.time()
     results = run_workers("run_json.py", jobs, chunk=max(2, len(jobs) // 48), timeout=1200)
     timings["implementation_s"] = round(_time.time() - t1, 1)
@@ -486,7 +489,7 @@ def run_json(ck: Check, prop_file: str, n_quick=(40, 4), n_thorough=(600, 8), op
         replay = {"schema": sg.schema_to_json(s), "value": sg.value_to_json(s.top, v), "observed": obs,
                   "specified": json.dumps(expected_json(s.top, v), separators=(",", ":")),
                   "origin": origin, "code": code, "code_bits": [BITS[b] for b in BITS if code & b],
-                  "direct_json_loads_mismatch": direct, "cc_opt": jobs[i].get("opt")}
+                  "direct_json_loads_mismatch": direct, "cc": jobs[i].get("cc") + " " + jobs[i].get("opt")}
         if code & 1:
             ck.broken(Broken(f"harness: case {origin}#{k} is outside shape/range/name guards", json.dumps(replay)[:1500]))
         if code & (4 | 8 | 256) or c_direct:
@@ -532,7 +535,7 @@ def run_json(ck: Check, prop_file: str, n_quick=(40, 4), n_thorough=(600, 8), op
                    "= distinct pairs, non-trivial = value tree with at least one field")
     cov["tie"] = {**cov.get("tie", {}), "schemas": len(cases), "corpus": n_corpus, "codes": counts,
                   "tie_mismatches": n_tie, "property_mismatches": n_prop, "impl_failures": impl_fail,
-                  "cc_opts": opts, "widths_exercised": len(width_seen),
+                  "toolchains": [" ".join(tc) for tc in chains], "widths_exercised": len(width_seen),
                   "schemas_with_byte_array": sum(1 for c in cases if has_byte_array(c[0].top)),
                   "code_bits": {str(b): t for b, t in BITS.items()}}
     cov["tie"]["timings"] = timings
